@@ -164,7 +164,7 @@ prop("C17", run="^TestC17", level="exploration",
      technique="property-based testing (rapid): reflective value generation + mutation non-interference oracle over all copy-capable types", design="DESIGN.md 4 C17", exhaustive_claim=False)
 
 prop("C04", run="^TestC04", level="exploration",
-     quick=(16, 600, 1200), thorough=(16, 60000, 14400),
+     quick=(16, 600, 1200), thorough=(16, 30000, 10800),
      rule="hostile inputs for every decoding entry point of DESIGN.md Appendix B (frame x7 x {none,lz4,snappy}, 17 message codecs x 6 versions (also decoded under a different version), query/continuous-paging options, type descriptors incl. 524287-level nesting, "
           "22 primitive readers + ParseUuid, segments +-LZ4 with recomputed CRCs, lz4/snappy decompressors, datacodec.Decode for generated types into same-representation / other-representation / *interface{} / preferred / 14 deliberately wrong destinations, AuthCredentials.Unmarshal): "
           "a valid encoding (from the reference encoders, with field annotations) mutated by: annotated length/count/code/flags field := {-1,-2,MinInt32,0,1,2,0x7f,0x80,0xff,0x7fff,0x8000,0xffff,2^24,MaxInt32, true+-1, random} (one or two fields), truncation at a drawn offset, bit flip, byte insert/delete, "
